@@ -79,3 +79,21 @@ Theorem C10_detector_at_most_active_lifetime_ahead :
   within (S.now (fst (wrun fields attempts D0 ws)) + timeout_active) (snd (wrun fields attempts D0 ws)).
 Proof. exact within_wrun. Qed.
 Print Assumptions C10_detector_at_most_active_lifetime_ahead.
+
+(* The hypotheses discharged for the concrete functions: the announced fields of every registration come out of the
+   ingest path (parseRegMessage / NewRegistrationC2SWrapper on any message, any configuration, any well-formed
+   selection), and the ingest worker's own steps for one message (TrackRegIfNotExists, then AddRegistration only for a
+   registration that was not tracked) are histories the theorem covers. *)
+Theorem C10_forwarded_while_station_accepts_ingested :
+  forall fields attempts D0 ws k,
+  (forall k, exists c w s, sel_wf s /\ In (fields k) (ingest c w s)) -> Forall (wok attempts) ws ->
+  station_accepts (fst (wrun fields attempts D0 ws)) k = true ->
+  (forall u, life_of (fst (wrun fields attempts D0 ws)) k <> Some (station_lifetime u, u)) ->
+  detector_forwards (fields k) (snd (wrun fields attempts D0 ws)) = true.
+Proof. exact forwarded_over_histories_ingested. Qed.
+Print Assumptions C10_forwarded_while_station_accepts_ingested.
+
+Theorem C10_ingest_worker_steps_in_scope :
+  forall attempts s sc ks, survivable attempts sc = true -> Forall (wok attempts) (recv_events s ks sc).
+Proof. intros a s sc ks. exact (recv_events_wok a s sc ks). Qed.
+Print Assumptions C10_ingest_worker_steps_in_scope.
